@@ -511,6 +511,37 @@ def rule_p1(repo, res):
                             "copy shares or loses items, or has another class", where=f"pvl/collections.py:{fn.lineno}"))
 
 
+def rule_p3(repo, res):
+    """P3: the reduction state (everything in the instance dictionary but the item list) is copied shallowly by
+    copy.copy and carried by deepcopy/pickle.  An instance attribute whose value holds a reference to the container
+    itself (a cached view, a bound method, self) makes the copy's attribute point at the ORIGINAL: the copy then shows
+    and changes the original's pairs through it.  No method of the container family stores such a value."""
+    items = item_attr(repo)
+    n = 0
+    for c in repo.subclasses(CONTAINER):
+        ci = repo.classes[c]
+        for m, fn in ci.methods.items():
+            for a in ast.walk(fn):
+                if not isinstance(a, (ast.Assign, ast.AnnAssign, ast.AugAssign)):
+                    continue
+                targets = a.targets if isinstance(a, ast.Assign) else [a.target]
+                for t in targets:
+                    if isinstance(t, ast.Attribute) and isinstance(t.value, ast.Name) and t.value.id == "self" and t.attr != items:
+                        n += 1
+                        val = a.value
+                        backref = val is not None and any(isinstance(x, ast.Name) and x.id == "self" for x in ast.walk(val))
+                        res.oblige("P3", f"{c}.{m}: `{norm(a, 60)}` stores no reference to the container itself", ok=not backref)
+                        if backref:
+                            res.add(Finding("P3", f"{c}.{m}", f"self.{t.attr} refers to self",
+                                            f"{c}.{m} stores `{norm(val, 60)}` in the instance attribute {t.attr}; the reduction "
+                                            "state carries every instance attribute except the item list, so a shallow copy "
+                                            "receives the same object -- one that refers back to the ORIGINAL container: the "
+                                            "copy's accessor shows (and equality, extend and update use) the original's pairs",
+                                            where=f"pvl/collections.py:{a.lineno}"))
+    res.oblige("P3", f"instance attributes of the {CONTAINER} family other than the item list ({n} assignment site(s)) hold no back-reference", ok=True,
+               nontrivial=False)
+
+
 def rule_p2(repo, res):
     """P2: the item list is only ever assigned fresh lists and never escapes;
     copy() is type(self)(self)."""
